@@ -31,17 +31,22 @@ func (s *Sim) SpecState(i int) map[string]interface{} {
 	out["lr"] = p.LockedRound
 	out["lb"] = s.SymOfHash(p.LockedBlock)
 	out["cr"] = p.CommitRound
-	vs := func(v pbft.VerifVoteSet) []interface{} {
+	// vote sets are indexed by position in the validator set of their height; the spec indexes by validator identity
+	vsAt := func(v pbft.VerifVoteSet, h int64) []interface{} {
 		o := make([]interface{}, s.N)
-		for k := 0; k < s.N; k++ {
-			if !v.Exists || k >= len(v.Votes) {
-				o[k] = NoneSym
-			} else {
-				o[k] = s.SymOfHash(v.Votes[k])
+		pw := s.PowersAt(h)
+		for id := 1; id <= s.N; id++ {
+			o[id-1] = NoneSym
+			if !v.Exists || pw[id-1] == 0 {
+				continue
+			}
+			if k := s.indexAt(h, id); k < len(v.Votes) {
+				o[id-1] = s.SymOfHash(v.Votes[k])
 			}
 		}
 		return o
 	}
+	vs := func(v pbft.VerifVoteSet) []interface{} { return vsAt(v, p.Height) }
 	pv := map[string]interface{}{}
 	pc := map[string]interface{}{}
 	for r := int64(0); r <= s.MaxRound; r++ {
@@ -58,7 +63,7 @@ func (s *Sim) SpecState(i int) map[string]interface{} {
 	}
 	out["rs"] = rs
 	if p.LastCommitRound >= 0 {
-		out["lc"] = map[string]interface{}{"r": p.LastCommitRound, "c": vs(p.LastCommit)}
+		out["lc"] = map[string]interface{}{"r": p.LastCommitRound, "c": vsAt(p.LastCommit, p.Height-1)}
 	} else {
 		out["lc"] = map[string]interface{}{"r": int64(-1), "c": vs(pbft.VerifVoteSet{})}
 	}
